@@ -30,6 +30,10 @@ Inductive obs :=
 Inductive item :=
 | ICmd (c : option command) (o : obs)
 | IHttp (q : hreq) (status : N) (body : bytes)
+| IArrive (c : option command) (o : option bytes)
+                                 (* pipelined: a command broadcast on the api topic by a controller that does not
+                                    wait; [Some r] = the reply r followed, [None] = no reply ever came (F17) *)
+| IReady                         (* pipelined: the handler is waiting again (before the next command it takes) *)
 | IPub                           (* traffic published on a feed/stream topic: no effect on the tables expected *)
 | IHttpOther (status : N).      (* a request gorilla/mux did not route to a rule handler (404, 405, /api,
                                    /healthcheck): no effect on the tables expected *)
@@ -73,34 +77,45 @@ Section Run.
   Variable dd : bytes -> drule + bytes.
   Variable ds : bytes -> srule + bytes.
 
-  Definition item_step (s : st) (i : item) : st * bool :=
+  (* lock-step items find the handler waiting and leave it waiting; pipelined arrivals go through the busy
+     window of the model ([tstep]) *)
+  Definition item_step (t : tst) (i : item) : tst * bool :=
+    let s := t_st t in
     match i with
-    | ICmd c o => let '(s', a) := step dd ds api repaired s c in (s', ans_ok a o)
+    | ICmd c o => let '(s', a) := step dd ds api repaired s c in (mkt s' false, ans_ok a o)
+    | IArrive c o =>
+        let '(t', out) := tstep dd ds api repaired t (TArrive c) in
+        (t', match out, o with
+             | Some None, None => true
+             | Some (Some a), Some r => option_eqb beqb (render repaired a) (Some r)
+             | _, _ => false
+             end)
+    | IReady => (mkt s false, true)
     | IHttp q status body =>
         let '(s', (st', b')) := hstep s q in
-        (s', (st' =? status) && (if st' =? 200 then beqb b' body else true))
-    | IPub => (s, true)
-    | IHttpOther status => (s, true)   (* only the tables are compared: they must not have changed *)
+        (mkt s' (t_busy t), (st' =? status) && (if st' =? 200 then beqb b' body else true))
+    | IPub => (t, true)
+    | IHttpOther status => (t, true)   (* only the tables are compared: they must not have changed *)
     end.
 
-  Fixpoint items_ok (s : st) (l : list (item * snap)) : bool :=
+  Fixpoint items_ok (t : tst) (l : list (item * snap)) : bool :=
     match l with
     | [] => true
-    | (i, n) :: r => let '(s', ok) := item_step s i in ok && snap_ok s' n && items_ok s' r
+    | (i, n) :: r => let '(t', ok) := item_step t i in ok && snap_ok (t_st t') n && items_ok t' r
     end.
 
-  Fixpoint nchanges (s : st) (l : list (item * snap)) : N :=
+  Fixpoint nchanges (t : tst) (l : list (item * snap)) : N :=
     match l with
     | [] => 0
     | (i, _) :: r =>
-        let s' := fst (item_step s i) in
-        (if snap_ok s' (Some (sort_keys (dests s), sort_keys (streams s))) then 0 else 1) + nchanges s' r
+        let t' := fst (item_step t i) in
+        (if snap_ok (t_st t') (Some (sort_keys (dests (t_st t)), sort_keys (streams (t_st t)))) then 0 else 1) + nchanges t' r
     end.
 End Run.
 
 (* the App starts with apiRule in place when a control destination is configured (vw.Stream) *)
-Definition start (api : bytes) : st :=
-  mkst (if is_nil api then [] else rwc_add [] (api_rule api)) [].
+Definition start (api : bytes) : tst :=
+  mkt (mkst (if is_nil api then [] else rwc_add [] (api_rule api)) []) false.
 
 Definition case_ok (c : case) : bool :=
   let '(api, td, ts, items, probes) := c in
@@ -116,10 +131,10 @@ Section Diag.
   Variable api : bytes.
   Variable dd : bytes -> drule + bytes.
   Variable ds : bytes -> srule + bytes.
-  Fixpoint item_flags (s : st) (l : list (item * snap)) : list (bool * bool) :=
+  Fixpoint item_flags (t : tst) (l : list (item * snap)) : list (bool * bool) :=
     match l with
     | [] => []
-    | (i, n) :: r => let '(s', ok) := item_step api dd ds s i in (ok, snap_ok s' n) :: item_flags s' r
+    | (i, n) :: r => let '(t', ok) := item_step api dd ds t i in (ok, snap_ok (t_st t') n) :: item_flags t' r
     end.
 End Diag.
 Definition case_flags (c : case) : list (bool * bool) * list bool :=
